@@ -278,7 +278,7 @@ func raceLogTail(n int64) string {
 }
 
 // shrink minimises a failing tape while the same violation class persists.
-func shrink(t *testing.T, sc Scenario, tape []uint32, class string, prop, tier string, budget time.Duration) []uint32 {
+func shrink(t *testing.T, sc Scenario, tape []uint32, class, key string, prop, tier string, budget time.Duration) []uint32 {
 	deadline := time.Now().Add(budget)
 	fails := func(c []uint32) bool {
 		if time.Now().After(deadline) {
@@ -287,8 +287,8 @@ func shrink(t *testing.T, sc Scenario, tape []uint32, class string, prop, tier s
 		st := NewStats()
 		for rep := 0; rep < 2; rep++ {
 			v, _ := execTape(t, sc, verifsim.ReplayTape(append([]uint32(nil), c...)), st, prop, tier, "shrink")
-			if v != nil && v.Class == class {
-				return true
+			if v != nil && v.Class == class && v.Key == key {
+				return true // (same class and key: a candidate must not turn into a different - e.g. a known - finding)
 			}
 		}
 		return false
@@ -506,13 +506,13 @@ func RunWorker(t *testing.T) {
 		rec := append([]uint32(nil), tape.Recorded()...)
 		min := rec
 		if os.Getenv("VERIF_NOSHRINK") == "" && v.Class != "data-race" { // the detector reports each race once per process
-			min = shrink(t, sc, rec, v.Class, prop, tier, 45*time.Second)
+			min = shrink(t, sc, rec, v.Class, v.Key, prop, tier, 45*time.Second)
 		}
 		// re-run the minimised tape to record the detail it produces
 		v2, _ := execTape(t, sc, verifsim.ReplayTape(append([]uint32(nil), min...)), NewStats(), prop, tier, id)
 		detail := v.Detail
 		note := ""
-		if v2 != nil && v2.Class == v.Class {
+		if v2 != nil && v2.Class == v.Class && v2.Key == v.Key {
 			detail = v2.Detail
 		} else {
 			min = rec
